@@ -59,81 +59,64 @@ def pieces (cargoVer : List Char) : List (List Char) :=
 def split (cargoVer : List Char) : List (Op × List Char) :=
   (pieces cargoVer).filterMap splitPiece
 
-/-- tokens of `_SEMVER_TOK_RE.finditer`: group 1 (digit run, already `int()`ed), group 2 (identifier);
-group 3 (`+…`) ends the scan and is not represented. -/
-inductive RTok where
-  | num (n : Nat)
-  | ident (s : List Char)
-  deriving DecidableEq, Repr
-
-inductive Run where
-  | none
-  | digits (acc : Nat)
-  | ident (rev : List Char)
-
-def flush : Run → List RTok
-  | .none => []
-  | .digits n => [.num n]
-  | .ident r => [.ident r.reverse]
-
 /-- `[0-9A-Za-z-]` -/
 def isIdentChar (c : Char) : Bool := isAlnum c || c == '-'
 /-- `[A-Za-z-]` -/
 def isIdentStart (c : Char) : Bool := isAlpha c || c == '-'
 
-/-- the `finditer` scan up to the first `+` match (at which the caller's loop `break`s).
-`(\d+)` is tried first, so a digit run ends at the first non-digit even if an identifier character
-follows; an identifier run swallows digits. -/
-def scanGo : Run → List Char → List RTok
-  | r, [] => flush r
+/-- the digit run the `finditer` scan is inside, if any (value already `int()`ed) -/
+inductive Run where
+  | none
+  | digits (acc : Nat)
+
+def flush : Run → List Nat
+  | .none => []
+  | .digits n => [n]
+
+/-- The `_SEMVER_TOK_RE.finditer` loop of `SemVer.__init__` up to the token that ends it: returns the
+digit-run values seen (group 1) and the text from the first identifier token on (group 2, at which
+the loop reads the rest of the string and `break`s); a `+` (group 3) ends the loop with no
+pre-release text. Everything else is skipped by `finditer`. -/
+def scanCore : Run → List Char → List Nat × List Char
+  | r, [] => (flush r, [])
   | r, c :: cs =>
-    match r with
-    | .ident l =>
-      if isIdentChar c then scanGo (.ident (c :: l)) cs
-      else flush r ++ (if c == '+' then [] else scanGo .none cs)
-    | .digits n =>
-      if isDigit c then scanGo (.digits (n * 10 + digitVal c)) cs
-      else if isIdentStart c then flush r ++ scanGo (.ident [c]) cs
-      else flush r ++ (if c == '+' then [] else scanGo .none cs)
-    | .none =>
-      if isDigit c then scanGo (.digits (digitVal c)) cs
-      else if isIdentStart c then scanGo (.ident [c]) cs
-      else if c == '+' then [] else scanGo .none cs
+    if isDigit c then
+      match r with
+      | .digits n => scanCore (.digits (n * 10 + digitVal c)) cs
+      | .none => scanCore (.digits (digitVal c)) cs
+    else if isIdentStart c then (flush r, c :: cs)
+    else if c == '+' then (flush r, [])
+    else
+      let res := scanCore .none cs
+      (flush r ++ res.1, res.2)
 
-def scan (s : List Char) : List RTok := scanGo .none s
+/-- `int(i) if i.isdecimal() else i` -/
+def classify (i : List Char) : Comp :=
+  if i.all isDigit then .int (Int.ofNat (natOfDigits i)) else .str i
 
-/-- loop state of `SemVer.__init__` -/
-structure PState where
-  vec : List Comp := []
-  pre : Bool := false
-  count : Nat := 0
-  deriving DecidableEq, Repr
+/-- `pre = in_[m.start():].split('+', 1)[0]`, one leading `-` removed, split on `.`, empty fields
+dropped, each field classified -/
+def preIdents (s : List Char) : List Comp :=
+  let pre := s.takeWhile (fun c => c != '+')
+  let pre := if startsWith pre ['-'] then pre.drop 1 else pre
+  ((splitOnChar '.' pre).filter (fun i => i ≠ [])).map classify
 
 /-- `while len(vec) < n: vec.append(0)` -/
 def padTo (n : Nat) (v : List Comp) : List Comp := v ++ List.replicate (n - v.length) (.int 0)
-
-def pstep (st : PState) : RTok → PState
-  | .num n =>
-    if st.pre || st.count < 3 then
-      { st with vec := st.vec ++ [.int n], count := if st.pre then st.count else st.count + 1 }
-    else st
-  | .ident s =>
-    if st.pre then { st with vec := st.vec ++ [.str s] }
-    else
-      -- The leading `-` is just a section marker.
-      let ident := if startsWith s ['-'] then s.drop 1 else s
-      if ident = [] then st
-      else { st with vec := padTo 3 st.vec ++ [.int (-1), .str ident], pre := true }
 
 structure SemVer where
   v : List Comp
   count : Nat
   deriving DecidableEq, Repr
 
-/-- `SemVer(in_: str)` -/
+/-- `SemVer(in_: str)`: at most three numbers are kept (`specified_count`); a non-empty identifier
+list adds the `-1` sentinel and the identifiers -/
 def SemVer.parse (s : List Char) : SemVer :=
-  let st := (scan s).foldl pstep {}
-  ⟨padTo 4 st.vec, st.count⟩
+  let res := scanCore .none s
+  let nums := (res.1.take 3).map (fun n => Comp.int (Int.ofNat n))
+  let idents := preIdents res.2
+  let vec := if idents = [] then nums else padTo 3 nums ++ .int (-1) :: idents
+  ⟨padTo 4 vec, nums.length⟩
 
 /-- `SemVer(in_: list)` -/
 def SemVer.ofList (l : List Comp) : SemVer := ⟨padTo 4 l, min 3 l.length⟩
@@ -221,8 +204,8 @@ def matchSplit (cs : List (Op × List Char)) (ver : List Char) : Bool :=
   let svs := cs.map (fun c => (c.1, SemVer.parse c.2))
   let out := svs.flatMap (fun c => constraintsOf c.1 c.2)
   let accept := svs.any (fun c => c.2.hasPre)
-  -- QUIRK: with no constraint at all the result is `lambda v: True` (pre-releases included)
-  if out.isEmpty then true else compareWith out accept (SemVer.parse ver)
+  -- with no constraint at all: `lambda v: not SemVer(v).has_prerelease`
+  if out.isEmpty then !(SemVer.parse ver).hasPre else compareWith out accept (SemVer.parse ver)
 
 /-- `cargo_parse(cargo_ver)(ver)` -/
 def cargoParse (cargoVer ver : List Char) : Bool := matchSplit (split cargoVer) ver
@@ -312,18 +295,34 @@ def sepTok (c : Char) : List Token :=
   else if c == '=' then [.equal]
   else []
 
-/-- `lexer(raw)`: `val` is `raw[start:i]` reversed, `isStr` is `is_string`.
-QUIRK: `is_string` only changes how the *next `"`* is treated; separators inside an open string
-still cut (and emit identifiers), and an unterminated `"` is silently dropped. -/
-def lexGo (val : List Char) (isStr : Bool) : List Char → List Token
-  | [] => if val ≠ [] then [.ident val.reverse] else []
-  | c :: cs =>
-    if isSepChar c then
-      if c == '"' && isStr then .str val.reverse :: lexGo [] false cs
-      else wordTok val.reverse ++ sepTok c ++ lexGo [] (if c == '"' then true else isStr) cs
-    else lexGo (c :: val) isStr cs
+/-- what iterating `lexer(raw)` to the end produces: the tokens yielded, and whether the generator
+then raised `MesonException('unterminated string in cfg expression')` -/
+structure LexResult where
+  toks : List Token
+  unterminated : Bool
+  deriving DecidableEq, Repr
 
-def lexer (raw : List Char) : List Token := lexGo [] false raw
+def LexResult.pre (ts : List Token) (r : LexResult) : LexResult := ⟨ts ++ r.toks, r.unterminated⟩
+
+/-- `lexer(raw)`: `val` is `raw[start:i]` reversed; `lit = some l` while the scan is inside a string
+literal (`i < start`), `l` being the literal text so far, reversed. `raw.find('"', start)` is the
+first `"` met in that state; reaching the end in it is the unterminated case. -/
+def lexGo (val : List Char) (lit : Option (List Char)) : List Char → LexResult
+  | [] =>
+    match lit with
+    | some _ => ⟨[], true⟩
+    | none => ⟨if val ≠ [] then [.ident val.reverse] else [], false⟩
+  | c :: cs =>
+    match lit with
+    | some l =>
+      if c == '"' then (lexGo [] none cs).pre [.str l.reverse]
+      else lexGo val (some (c :: l)) cs
+    | none =>
+      if isSepChar c then
+        (lexGo [] (if c == '"' then some [] else none) cs).pre (wordTok val.reverse ++ sepTok c)
+      else lexGo (c :: val) none cs
+
+def lexer (raw : List Char) : LexResult := lexGo [] none raw
 
 /-- the dataclasses `Identifier`, `Equal(Identifier, String)`, `Any`, `All`, `Not` -/
 inductive IR where
@@ -342,6 +341,7 @@ inductive PErr where
   | unhandled           -- 'Unhandled Cargo token'
   | malformed           -- StopIteration => 'malformed cfg expression'
   | trailing            -- 'trailing text after cfg expression'
+  | unterminated        -- the lexer's 'unterminated string in cfg expression' (see `parseLexed`)
   | assertion           -- AssertionError (`assert value`), not reachable from `lexer`
   | fuel                -- model artefact: never produced with the fuel `parse` supplies
   deriving DecidableEq, Repr
@@ -432,10 +432,17 @@ def evalAll (cfgs : Cfgs) : List IR → Bool
   | e :: es => evalIR cfgs e && evalAll cfgs es
 end
 
+/-- `parse(lexer(raw))`. The lexer is a generator: when it ends in the unterminated-string error the
+parser always fails with a `MesonException` — that error, or an earlier syntax error of the token
+prefix, depending on how far the one-token lookahead got. The model does not distinguish the two
+messages and reports `unterminated`. -/
+def parseLexed (r : LexResult) : Except PErr IR :=
+  if r.unterminated then .error .unterminated else parse r.toks
+
 /-- `eval_cfg(raw, cfgs)` -/
 def evalCfg (raw : List Char) (cfgs : Cfgs) : Except PErr Bool :=
   if startsWith raw ['c', 'f', 'g', '('] && endsWith raw [')'] then
-    match parse (lexer ((raw.drop 4).dropLast)) with
+    match parseLexed (lexer ((raw.drop 4).dropLast)) with
     | .error e => .error e
     | .ok ir => .ok (evalIR cfgs ir)
   else .ok false
